@@ -310,25 +310,35 @@ def block_of(idxs):
     return space if all(c == "n" for c in spin) else f"{space}_{spin}"
 
 
+def uniq_objs(t):
+    """the objects of a term as the code's sort functions see them: a power of an object is ONE object (the exporter lists
+    it exponent times; sympy cannot hold the same object twice in a product without merging it into a power)"""
+    out = []
+    for o in t[1]:
+        if o not in out:
+            out.append(o)
+    return out
+
+
 def key_delta_types(t):
-    k = tuple(sorted(block_of(obj_idx_list(o)) for o in t[1] if o[0] == "D"))
+    k = tuple(sorted(block_of(obj_idx_list(o)) for o in uniq_objs(t) if o[0] == "D"))
     return k or ("none",)
 
 
 def key_delta_indices(t):
-    k = tuple(sorted("".join(idx_str(i) for i in obj_idx_list(o)) for o in t[1] if o[0] == "D"))
+    k = tuple(sorted("".join(idx_str(i) for i in obj_idx_list(o)) for o in uniq_objs(t) if o[0] == "D"))
     return k or ("none",)
 
 
 def key_tensor_block(t, name):
-    k = tuple(sorted(block_of(obj_idx_list(o)) for o in t[1] if o[0] == "T" and o[2] == name))
+    k = tuple(sorted(block_of(obj_idx_list(o)) for o in uniq_objs(t) if o[0] == "T" and o[2] == name))
     return k or ("none",)
 
 
 def key_tensor_target_block(t, name):
     free = {i for o in t[1] for i in C.obj_idx_set(o)} - set(t[2])
     key = []
-    for o in t[1]:
+    for o in uniq_objs(t):
         if o[0] == "T" and o[2] == name:
             tt = [i for i in obj_idx_list(o) if i in free]
             if not tt:
@@ -344,7 +354,7 @@ def key_tensor_target_block(t, name):
 def key_tensor_target_indices(t, name):
     free = {i for o in t[1] for i in C.obj_idx_set(o)} - set(t[2])
     key = []
-    for o in t[1]:
+    for o in uniq_objs(t):
         if o[0] == "T" and o[2] == name:
             s = "".join(idx_name(i) for i in obj_idx_list(o) if i in free)
             key.append(s or "none")
